@@ -85,7 +85,13 @@ def splitLines (s : List Char) : List (List Char) :=
     | c :: cs => if c = '\n' then cur.reverse :: go [] cs else go (c :: cur) cs
   go [] s
 
-def isWordChar (c : Char) : Bool := c.isAlphanum || c = '_'
+/-- the regex crate's Unicode `\w` (used by `\b`), exact on ASCII and approximated beyond it by the
+Latin-1 letters and the CJK unified ideographs (every other non-ASCII character counts as a
+non-word character; the generators' alphabets stay inside the exact part) -/
+def isWordChar (c : Char) : Bool :=
+  c.isAlphanum || c = '_' ||
+  (0xC0 ≤ c.toNat && c.toNat ≤ 0xFF && c.toNat ≠ 0xD7 && c.toNat ≠ 0xF7) ||
+  (0x4E00 ≤ c.toNat && c.toNat ≤ 0x9FFF)
 
 /-- util.rs:21-23 `escape_assertion`: `\b(r\d*|p\d*)\.` ↦ `${1}_`.
 `prevWord` = the previous character is a word character (no `\b` here). -/
